@@ -564,6 +564,9 @@ func c20Parent(c *Check, bound int) {
 	c.extra["harnesses"] = len(c20Harnesses(c.Tier))
 	c.extra["worker_processes"] = N
 	c.mu.Unlock()
+	if c.replayKey == "" || strings.HasPrefix(c.replayKey, "data-race:") {
+		freeRacePass(c)
+	}
 }
 
 func init() { register("C20", "model_checking", runC20) }
